@@ -32,9 +32,7 @@ Proof. reflexivity. Qed.
 Lemma gen_retriable_retryerror : forall rf, gen_retriable rf 0 = true.
 Proof.
   intros rf. unfold gen_retriable. destruct rf as [|a rf']; [reflexivity|].
-  destruct (existsb (Nat.eqb 0) (a :: rf')) eqn:E.
-  - exact E.
-  - rewrite orb_true_r. reflexivity.
+  destruct (existsb (Nat.eqb 0) (a :: rf')); reflexivity.
 Qed.
 
 Lemma gen_retriable_other : forall rf k, k <> 0 ->
